@@ -789,3 +789,15 @@ mutant('C15', 'efficiency-skips-worm-gear:static-error (pre-fix shape)', RUTIL, 
 mutant('C15', 'efficiency-skips-worm-gear:pwm-min (pre-fix shape)', RUTIL, "        if isinstance(element, SpurGear | WormGear):\n", "        if isinstance(element, SpurGear):\n", 'C15.value', nth=1)
 mutant('C15', 'efficiency-only-helical', RUTIL, "        if isinstance(element, SpurGear | WormGear):\n", "        if isinstance(element, HelicalGear | WormGear):\n", 'C15.value', nth=0)
 benign('C15', 'efficiency-filter-by-hasattr', RUTIL, "        if isinstance(element, SpurGear | WormGear):\n", "        if hasattr(element, 'master_gear_efficiency'):\n", nth=0)
+
+# ------------------------------------------------------------------------------------------ C18 admission and initial columns (sweep C)
+mutant('C18', 'snapshot-rejects-first-instant', PT, "if (target_time < min(self.time)) or (target_time > max(self.time)):", "if (target_time <= min(self.time)) or (target_time > max(self.time)):", 'C18.range')
+mutant('C18', 'snapshot-rejects-last-instant', PT, "if (target_time < min(self.time)) or (target_time > max(self.time)):", "if (target_time < min(self.time)) or (target_time >= max(self.time)):", 'C18.range')
+benign('C18', 'snapshot-range-chained', PT, "if (target_time < min(self.time)) or (target_time > max(self.time)):", "if not (min(self.time) <= target_time <= max(self.time)):")
+mutant('C18', 'snapshot-initial-columns-inverted', PT, "            if UNITS[variable] != '' else variable for variable in variables", "            if UNITS[variable] == '' else variable for variable in variables", 'C18.pairing')
+
+# ------------------------------------------------------------------------------------------ C19 boundary exactness (sweep C)
+mutant('C19', 'minimum-teeth-rejected', MB, "        if n_teeth < MINIMUM_TEETH_NUMBER:", "        if n_teeth <= MINIMUM_TEETH_NUMBER:", 'C19.boundary')
+mutant('C19', 'worm-max-helix-rejected', WG, "        if helix_angle > maximum_helix_angle:", "        if helix_angle >= maximum_helix_angle:", 'C19.boundary')
+mutant('C19', 'wheel-max-helix-rejected', WW, "        if helix_angle > maximum_helix_angle:", "        if helix_angle >= maximum_helix_angle:", 'C19.boundary')
+benign('C19', 'minimum-teeth-negated-form', MB, "        if n_teeth < MINIMUM_TEETH_NUMBER:", "        if not n_teeth >= MINIMUM_TEETH_NUMBER:")
